@@ -14,14 +14,15 @@ struct Step {
     len: usize,
     snap: Vec<i128>,
     ttl: Option<u128>,
+    sf: bool,
 }
 
 fn step_json(s: &Step) -> String {
     let snap: Vec<String> = s.snap.iter().map(|x| x.to_string()).collect();
     format!(
-        "{{\"req\":{},\"out\":{},\"cleaned\":{},\"len\":{},\"snap\":[{}],\"ttl\":{}}}",
+        "{{\"req\":{},\"out\":{},\"cleaned\":{},\"len\":{},\"snap\":[{}],\"ttl\":{},\"sf\":{}}}",
         s.req.json(), s.out.json(), s.cleaned, s.len, snap.join(","),
-        match s.ttl { Some(t) => format!("\"{t}\""), None => "null".into() }
+        match s.ttl { Some(t) => format!("\"{t}\""), None => "null".into() }, s.sf
     )
 }
 
@@ -29,9 +30,9 @@ fn do_step(lim: &mut Lim, req: &Req) -> Step {
     let c0 = lim.cleanups();
     let out = lim.call(req);
     if lim.dead {
-        return Step { req: req.clone(), out, cleaned: false, len: 0, snap: vec![], ttl: None };
+        return Step { req: req.clone(), out, cleaned: false, len: 0, snap: vec![], ttl: None, sf: false };
     }
-    Step { req: req.clone(), out, cleaned: lim.cleanups() != c0, len: lim.len(), snap: lim.snapshot(), ttl: lim.last_ttl() }
+    Step { req: req.clone(), out, cleaned: lim.cleanups() != c0, len: lim.len(), snap: lim.snapshot(), ttl: lim.last_ttl(), sf: lim.last_get_stale() }
 }
 
 fn replay(cfg: &Cfg, reqs: &[Req]) -> Lim {
@@ -338,7 +339,7 @@ fn mode_insert(rng: &mut Rng, n_cases: u64, max_len: u64) {
 
 /// C05: interleave per-key histories (victims with fixed limits in D) with arbitrary traffic on
 /// many other keys; each victim's responses must equal its solo run on a fresh limiter
-fn mode_interleave(rng: &mut Rng, n_cases: u64, max_len: u64, noise_keys: u64) {
+fn mode_interleave(rng: &mut Rng, n_cases: u64, max_len: u64, noise_keys: u64, disorder: bool) {
     for case in 0..n_cases {
         let cfg = random_cfg(rng, case);
         let nvict = *rng.pick(&[1u64, 2, 3]);
@@ -353,12 +354,20 @@ fn mode_interleave(rng: &mut Rng, n_cases: u64, max_len: u64, noise_keys: u64) {
         let mut steps: Vec<Step> = Vec::new();
         let mut viol: Vec<Viol> = Vec::new();
         let mut fresh_noise = 0u64;
+        // with `disorder` every victim key runs on its own (non-decreasing) clock, so the merged
+        // history is not globally ordered
+        let mut vclock: Vec<i128> = (0..nvict).map(|i| now - (i as i128) * 50_000_000).collect();
         for _ in 0..n {
             now += match rng.below(6) { 0 | 1 => 0, 2 => 1, 3 => rng.range(0, 1_000_000) as i128, 4 => rng.range(0, 2_000_000_000) as i128, _ => rng.range(0, 70_000_000_000) as i128 };
             now = now.min(YEAR2100);
             let req = if rng.chance(1, 3) {
                 let vi = rng.below(nvict) as usize;
                 let (b, count, period) = limits[vi];
+                let now = if disorder {
+                    let e = emission_ns(count, period) as i128;
+                    vclock[vi] = (vclock[vi] + (rng.next() as i128 % (e / 2 + 2))).min(YEAR2100);
+                    vclock[vi]
+                } else { now };
                 let q = match rng.below(5) { 0 => 0, 1 | 2 => 1, 3 => b, _ => rng.range(0, b + 1) };
                 Req { key: vkeys[vi], b, count, period, q, now }
             } else {
@@ -458,6 +467,136 @@ fn mode_reclaim(rng: &mut Rng, n_cases: u64, max_len: u64) {
     }
 }
 
+
+/// C17: timestamps out of order (jitter, multi-second backward steps, oscillation across expiry
+/// and cleanup instants), aggressive cleanup.  Oracles: no panic / error; window bound with the
+/// slack J (largest regression of the history); a regressed request never sees more budget than
+/// at the latest timestamp.  `sf` marks calls whose lookup hit a stale-forget event.
+fn mode_regress(rng: &mut Rng, n_cases: u64, max_len: u64) {
+    for case in 0..n_cases {
+        let cfg = match rng.below(4) {
+            0 => Cfg::Probabilistic { capacity: 16, prob: *rng.pick(&[1u64, 2, 3]) },
+            1 => Cfg::Periodic { capacity: 16, interval_ns: *rng.pick(&[0u64, 1_000_000, 1_000_000_000]) },
+            2 => Cfg::Adaptive { capacity: 16, min_ns: 0, max_ns: *rng.pick(&[0u64, 1_000_000]), max_ops: *rng.pick(&[0usize, 1, 3]) },
+            _ => random_cfg(rng, case),
+        };
+        let mut lim = Lim::new(&cfg);
+        let snap0 = lim.snapshot();
+        let nkeys = *rng.pick(&[1u64, 1, 2, 4]);
+        let limits: Vec<(i64, i64, i64)> = (0..nkeys).map(|_| pick_limits(rng)).collect();
+        let es: Vec<i128> = limits.iter().map(|l| emission_ns(l.1, l.2) as i128).collect();
+        let wall = time_to_ns(std::time::SystemTime::now());
+        let base = wall + 100_000_000_000 + rng.range(0, 1_000_000_000) as i128;
+        let mut now = base;
+        let mut latest = base;
+        let n = rng.range(2, max_len as i64) as usize;
+        let style = rng.below(5); // 0 jitter, 1 big backward steps, 2 oscillation, 3 per-key clocks, 4 other keys stamped ahead
+        let mut key_clock: Vec<i128> = (0..nkeys).map(|i| base + (i as i128) * 20_000_000).collect();
+        let mut steps: Vec<Step> = Vec::new();
+        let mut viol: Vec<Viol> = Vec::new();
+        let mut j_max: i128 = 0;
+        for i in 0..n {
+            let ki = rng.below(nkeys) as usize;
+            let (b, count, period) = limits[ki];
+            let e = es[ki];
+            now = match style {
+                0 => latest + rng.range(-(e.min(5_000_000) as i64), e.min(20_000_000) as i64) as i128,
+                1 => if rng.chance(1, 4) { latest - rng.range(0, 5_000_000_000) as i128 } else { latest + (rng.next() as i128 % (e + 1)) },
+                2 => { let span = 2 * e * (b as i128) + 2; base + (rng.next() as i128 % span) * (1 + (i as i128 % 3)) }
+                3 => { key_clock[ki] += rng.next() as i128 % (e + 1); key_clock[ki] }
+                _ => {
+                    // key 0 is the victim on its own slow clock; the others are stamped far ahead of it
+                    if ki == 0 { key_clock[0] += rng.next() as i128 % (es[0] / 4 + 1); key_clock[0] }
+                    else { key_clock[0] + 2 * es[0] * (limits[0].0 as i128) + (rng.next() as i128 % (es[0] + 1)) }
+                }
+            };
+            now = now.max(0).min(YEAR2100);
+            if latest - now > j_max { j_max = latest - now; }
+            if now > latest { latest = now; }
+            let q = match rng.below(6) { 0 => 0, 1 | 2 => 1, 3 => b, 4 => b + 1, _ => rng.range(0, b + 1) };
+            let req = Req { key: 40 + ki as u64, b, count, period, q, now };
+            let st = do_step(&mut lim, &req);
+            match &st.out {
+                Out::Ok { .. } => {}
+                other => viol.push(Viol { prop: "C17", step: i, what: format!("valid request with an out-of-order timestamp gave {:?}", other) }),
+            }
+            steps.push(st);
+            if lim.dead { break; }
+        }
+        // window bound with slack J, per key
+        for ki in 0..nkeys as usize {
+            let key = 40 + ki as u64;
+            let (b, _, _) = limits[ki];
+            let e = es[ki];
+            let mut adm: Vec<(i128, i128, usize)> = steps.iter().enumerate()
+                .filter(|(_, s)| s.req.key == key && s.out.allowed() == Some(true))
+                .map(|(i, s)| (s.req.now, s.req.q as i128, i)).collect();
+            adm.sort();
+            'w: for a in 0..adm.len() {
+                let mut sum: i128 = 0;
+                let mut last_step = 0usize;
+                for c in a..adm.len() {
+                    sum += adm[c].1;
+                    last_step = last_step.max(adm[c].2);
+                    if e * (sum - b as i128) > adm[c].0 - adm[a].0 + j_max {
+                        viol.push(Viol { prop: "C17", step: last_step, what: format!("window [{},{}] admitted {} > {} + ({}ns + J={}ns)/{}ns", adm[a].0, adm[c].0, sum, b, adm[c].0 - adm[a].0, j_max, e) });
+                        break 'w;
+                    }
+                }
+            }
+        }
+        // budget probe: what is admitted at a regressed timestamp is admitted at the latest one
+        if !lim.dead && !steps.is_empty() {
+            let reqs: Vec<Req> = steps.iter().map(|s| s.req.clone()).collect();
+            for _ in 0..4 {
+                let i = rng.below(steps.len() as u64) as usize;
+                let r0 = &steps[i].req;
+                let m = reqs[..=i].iter().map(|r| r.now).max().unwrap();
+                if r0.now < m && steps[i].out.allowed() == Some(true) && r0.q > 0 {
+                    let mut l2 = replay(&cfg, &reqs[..i]);
+                    let o2 = l2.call(&Req { now: m, ..r0.clone() });
+                    if o2.allowed() != Some(true) {
+                        viol.push(Viol { prop: "C17", step: i, what: format!("quantity {} admitted at the regressed timestamp {} but denied at the latest timestamp {}", r0.q, r0.now, m) });
+                    }
+                }
+            }
+        }
+        emit("regress", &cfg, &snap0, &steps, &viol, &format!(",\"J\":{j_max}"));
+    }
+}
+
+
+/// the canonical stale-forget history of KNOWN_FINDINGS.txt (C17 / C05): victim key max_burst 2,
+/// 10 ms per token, quantity 2 at t0+i ms; after each, another key stamped t0+20+i ms;
+/// ProbabilisticStore sweeping on every write
+fn mode_witness_f7() {
+    let cfg = Cfg::Probabilistic { capacity: 1000, prob: 1 };
+    let mut lim = Lim::new(&cfg);
+    let snap0 = lim.snapshot();
+    let t0: i128 = 1_700_000_000_000_000_000;
+    let ms: i128 = 1_000_000;
+    let mut steps: Vec<Step> = Vec::new();
+    let mut viol: Vec<Viol> = Vec::new();
+    for i in 0..10i128 {
+        steps.push(do_step(&mut lim, &Req { key: 40, b: 2, count: 100, period: 1, q: 2, now: t0 + i * ms }));
+        steps.push(do_step(&mut lim, &Req { key: 100 + i as u64, b: 2, count: 100, period: 1, q: 1, now: t0 + (20 + i) * ms }));
+    }
+    let adm: i128 = steps.iter().filter(|s| s.req.key == 40 && s.out.allowed() == Some(true)).map(|s| s.req.q as i128).sum();
+    let j: i128 = 19 * ms;
+    if 10 * ms * (adm - 2) > 9 * ms + j {
+        viol.push(Viol { prop: "C17", step: steps.len() - 2, what: format!("window [{},{}] admitted {} > 2 + (9ms + J=19ms)/10ms", t0, t0 + 9 * ms, adm) });
+    }
+    // C05 view: the victim alone
+    let mut solo = Lim::new(&cfg);
+    for (i, s) in steps.iter().enumerate() {
+        if s.req.key == 40 {
+            let o = solo.call(&s.req);
+            if o != s.out { viol.push(Viol { prop: "C05", step: i, what: format!("key answered {:?} in the interleaved history but {:?} when run alone", s.out, o) }); break; }
+        }
+    }
+    emit("witness_f7", &cfg, &snap0, &steps, &viol, ",\"J\":19000000");
+}
+
 /// C08: boundary lattice over i64^4, fresh and pre-populated keys
 fn mode_lattice(rng: &mut Rng, n_random: u64, stride: u64) {
     let giga: i64 = 1_000_000_000;
@@ -555,8 +694,10 @@ fn main() {
     match mode.as_str() {
         "hist" => mode_hist(&mut rng, n, max_len, arg_u64("--probes", 1) == 1),
         "insert" => mode_insert(&mut rng, n, max_len),
-        "interleave" => mode_interleave(&mut rng, n, max_len, arg_u64("--noise", 3000)),
+        "interleave" => mode_interleave(&mut rng, n, max_len, arg_u64("--noise", 3000), arg_u64("--disorder", 0) == 1),
         "reclaim" => mode_reclaim(&mut rng, n, max_len),
+        "regress" => mode_regress(&mut rng, n, max_len),
+        "witness_f7" => mode_witness_f7(),
         "lattice" => mode_lattice(&mut rng, arg_u64("--random", 2000), arg_u64("--stride", 1)),
         _ => { eprintln!("unknown mode"); std::process::exit(2); }
     }
